@@ -113,6 +113,11 @@ def gen_states(r, card, mode, allow_negative=False):
         # str() of the states of one variable stay distinct (file formats and column names print them)
         pool = ["yes", "no", "x", "y", 0, 1, 2, 3, 10, "s0", "s1"]
         return r.sample(pool, card)
+    if mode == "odd":
+        # legal but unusual names: None, the empty string, a float, a negative number, a tuple (falsy values and
+        # "is None" / dict.get shortcuts are classic slips); str() of the states of one variable stay distinct
+        pool = [None, "", 0.5, -1, "yes", ["a", 0], 7]
+        return r.sample(pool, card)
     if mode == "tuple":
         pool = [["a", 0], ["a", 1], ["b", 0], ["b", 1], ["c", 2]]
         return r.sample(pool, card)
@@ -255,7 +260,7 @@ def gen_bn(streams, max_n=6, min_n=1, max_card=4, max_parents=3, max_joint=4096,
         label_mode = "str"
     labels, label_mode = gen_labels(rl, n, label_mode, keyword_rate=keyword_rate)
     if state_modes is None:
-        state_modes = [("default", 3), ("str", 3), ("int", 2), ("mixed", 1), ("int_sorted", 1)]
+        state_modes = [("default", 3), ("str", 3), ("int", 2), ("mixed", 1), ("int_sorted", 1), ("odd", 1)]
     smode = weighted(rl, state_modes + [("per_var", 2)])
     states = []
     for v in range(n):
